@@ -9,6 +9,9 @@ import (
 	"github.com/goatcms/goatcore/zzverif/nd"
 )
 
+// zzNil marks an explicit nil in the reference maps (values are one byte).
+const zzNil = "<nil>"
+
 // ZZVerifC13Overlay: on a parent-child chain of depth D, any history of
 // Set/Value steps on symbolic levels with symbolic keys behaves like a list of
 // maps: a level answers with its own value if it has one, otherwise with the
@@ -30,27 +33,46 @@ func ZZVerifC13Overlay() {
 	for s := 0; s < steps; s++ {
 		lv := nd.Choose("level", d)
 		k := nd.Choose("keyidx", 2)
-		if nd.Choose("set", 2) == 1 {
-			v := nd.String("val", 1)
-			levels[lv].SetValue(keys[k], v)
-			ref[lv][[]string{"k0", "k1"}[k]] = v
+		// a step sets a string or an explicit nil (a level then has a value
+		// for the key: nil), directly or inside a locked section
+		if set := nd.Choose("set", 3); set != 0 {
+			var v interface{}
+			rv := zzNil
+			if set == 1 {
+				sv := nd.String("val", 1)
+				v, rv = sv, sv
+			}
+			if nd.Bool("set-under-lock") {
+				lk := levels[lv].LockData()
+				lk.SetValue(keys[k], v)
+				nd.Assert(lk.Commit() == nil, "C13/commit-ok")
+			} else {
+				levels[lv].SetValue(keys[k], v)
+			}
+			ref[lv][[]string{"k0", "k1"}[k]] = rv
 		}
-		// observe every level and key
+		// observe every level and key, directly and through the level's lock
 		for l := 0; l < d; l++ {
 			for kk := 0; kk < 2; kk++ {
 				got := levels[l].Value(keys[kk])
-				var want interface{}
+				lk := levels[l].LockData()
+				gotLocked := lk.Value(keys[kk])
+				lk.Commit()
+				want, has := "", false
 				for a := l; a >= 0; a-- {
 					if v, ok := ref[a][[]string{"k0", "k1"}[kk]]; ok {
-						want = v
+						want, has = v, true
 						break
 					}
 				}
-				if want == nil {
+				if !has || want == zzNil {
 					nd.Assert(got == nil, "C13/overlay-missing")
+					nd.Assert(gotLocked == nil, "C13/overlay-missing-under-lock")
 				} else {
 					gs, ok := got.(string)
-					nd.Assert(ok && gs == want.(string), "C13/overlay-value")
+					nd.Assert(ok && gs == want, "C13/overlay-value")
+					gl, ok := gotLocked.(string)
+					nd.Assert(ok && gl == want, "C13/overlay-value-under-lock")
 				}
 			}
 		}
